@@ -57,7 +57,7 @@ PROPS = {
         ],
         'assumptions': ["the tool functions are verified against the CONTRACTS of the reader / writer classes (their per-record behaviour is C01, C03, C06): which encoding, blocking and configuration each side gets, every record written once in order, output finalised once; the per-record claims are the conversion lemmas (element decoded under A, re-encoded under B, decodes under B to the same value; binary ICC data byte-identical; A->B->A byte-for-byte for characters encodable in both codecs)",
                         "codec bijection on the characters used is an assumption about the code pages (exhaustively checked for latin_1, cp500, cp037 in the native stand-in); generator expressions are evaluated eagerly by the engine (same results, different interleaving of reads and writes)",
-                        "cli_run, argparse, open(), output-file naming: not verified, not claimed (mideu.convert's open() calls are modelled as named ghost files)",
+                        "cli_run of mci_ipm_encode / mci_ipm_param_encode is verified as plumbing against an open() model (one ghost file per name): named input/output (default input+'.out'), encodings as given, formats 'vbs' exactly when 1014 blocking is switched off; argparse and the operating system's files are not verified (the stand-in runs mideu convert on real temporary files)",
                         "mideu convert re-packs PDS sub-elements: equal carriers follow from C12 (same sorted items, same greedy cuts); not re-proved here"],
     },
     'C20': {
@@ -70,7 +70,7 @@ PROPS = {
         ],
         'assumptions': ["csv.DictReader / csv.DictWriter are modelled as a text round trip of rows of cells (quoting of commas, quotes and spaces is the csv module's, assumed); csv writes str(value); dateutil.parser.parse(str(dt)) = dt for second-precision datetimes is assumed",
                         "plumbing only: each CSV row becomes one message holding exactly its non-empty cells; each record becomes one CSV row holding exactly the configured columns it has; encoding / blocking / configuration are passed to the writer and reader; the message round trip in between is C06",
-                        "command entry points on real files (cli_run) are not verified"],
+                        "command entry points: both cli_run functions are verified as plumbing against an open() model (named files, the 1014 option and the encodings exactly as the caller gave them, configuration from get_config); argparse and the operating system's files are not verified (the stand-in runs cli_run on real temporary files)"],
     },
     'C18': {
         'modules': ['contracts.iso_field', 'contracts.ipm_param'],
@@ -226,7 +226,8 @@ PROPS = {
             (CARD, "(len(card_number)-10)", "(len(card_number)-11)", "mask one short"),
             (ISO, "    if field_processor == 'PAN':\n        field_data = mask(field_data)", "    if field_processor == 'PAN' and len(field_data) <= 19:\n        field_data = mask(field_data)", "long PAN values returned in clear", "_iso8583_to_field[LLLVAR,PAN"),
         ],
-        'assumptions': [],
+        'assumptions': ["decode level: per element shape (LLVAR / LLLVAR with PAN or PAN-PREFIX processor, with and without the explicit \"string\" type) for ANY bytes; that loads hands the caller's configuration to the decoder unchanged is the loads plumbing unit; that elements are cut from the message where the bitmap says is C08 (its units and stand-in run with C16)",
+                        "a configuration is read at every call (frame lint + stand-in that switches masking on in place between two decodes); no claim about configuration objects mutated from another thread"],
     },
 }
 
